@@ -823,6 +823,15 @@ def step (st : St) (op impl : List String) : St × Verdict :=
         (st, .oracle s!"C18: {w} concurrent writers through the real handler, all holding the same tag: {x}")
       else (st, .badop s!"race: {x}")
     | _ => (st, .badop "race result")
+  | ["race2", _] =>
+    match impl with
+    | ["ok"] => (st, .ok)
+    | [x] =>
+      if x.startsWith "bad:" then
+        (st, .oracle s!"C17,C18: concurrent writers on one definition file (password and key updates without precondition, user and description updates with If-Match, all acknowledged): {x}")
+      else if x.startsWith "env:" then (st, .ok)
+      else (st, .badop s!"race2: {x}")
+    | _ => (st, .badop "race2 result")
   | ["crashrun", name, i] =>
     match impl with
     | state :: _ =>
